@@ -180,8 +180,18 @@ class SetShape:
         self.elem = elem
 
 
+class MapShape:
+    """A dict held in an object field (iteration order not modelled): domain array + value arrays."""
+
+    def __init__(self, key, val):
+        self.key, self.val = key, val
+
+
 def shape_sorts(shape):
     """Flat list of z3 sorts for a shape."""
+    if isinstance(shape, MapShape):
+        k = key_sort(shape.key)
+        return [z3.ArraySort(k, z3.BoolSort())] + [z3.ArraySort(k, s) for s in shape_sorts(shape.val)]
     if isinstance(shape, z3.SortRef):
         return [shape]
     if isinstance(shape, SetShape):
@@ -208,6 +218,10 @@ def flatten(shape, value):
         if not isinstance(value, SetV):
             raise Unsupported(f"set expected for a set-valued field, got {type(value).__name__}")
         return [value.arr]
+    if isinstance(shape, MapShape):
+        if not isinstance(value, MapV):
+            raise Unsupported(f"dict expected for a dict-valued field, got {type(value).__name__}")
+        return [value.dom] + (list(value.val) if isinstance(value.val, (list, tuple)) else [value.val])
     if isinstance(shape, SeqShape):
         if not isinstance(value, SeqV):
             raise Unsupported(f"sequence expected for a list-valued field, got {type(value).__name__}")
@@ -240,6 +254,11 @@ def unflatten(shape, terms):
         return terms.pop(0)
     if isinstance(shape, SetShape):
         return SetV(shape.elem, terms.pop(0))
+    if isinstance(shape, MapShape):
+        dom = terms.pop(0)
+        k = len(shape_sorts(shape.val))
+        vals = [terms.pop(0) for _ in range(k)]
+        return MapV(shape.key, shape.val, dom, vals if k > 1 else vals[0], None)
     if isinstance(shape, SeqShape):
         k = len(shape_sorts(shape.elem))
         arrs = [terms.pop(0) for _ in range(k)]
